@@ -558,6 +558,49 @@ def c02(v):
     P = pools.Pools(v.seed, scale_of(v))
     plan = pools.plan_for(sorted(pools.SIG), P, cap=1200 * scale_of(v))
     eventtrace(v, "pools", plan, {"range"})
+    # parsing: numeric fields filled with arbitrary digit strings (in and out of every field's domain), under clocks
+    # incl. year 9999; also through serde_json - whatever parses must be in range
+    import random
+    rnd = random.Random(v.seed + 2)
+    fuzz = []
+    pics = {"D": DATE_PICS_FULL + DATE_PICS_PART, "T": TIME_PICS, "TS": TS_PICS, "OD": OD_PICS, "YM": YM_PICS, "DT": DT_PICS}
+    widths = {"YYYY": 4, "YYY": 3, "YY": 2, "Y": 1, "MM": 2, "DD": 2, "DDD": 3, "HH24": 2, "HH12": 2, "HH": 2, "MI": 2, "SS": 2,
+              "FF": 9, "D": 1}
+    import re as _re
+    tokre = _re.compile(r"YYYY|YYY|YY|Y|MONTH|MON|MM|MI|DDD|DD|DAY|DY|D|HH24|HH12|HH|SS|FF[1-9]?|A\.M\.|P\.M\.|AM|PM|.", _re.I)
+    for ty, plist in pics.items():
+        for pic in plist:
+            for _ in range(60 * scale_of(v)):
+                out = []
+                for tk in tokre.findall(pic):
+                    u = tk.upper()
+                    if u.startswith("FF"):
+                        out.append("".join(rnd.choice("0599") for _ in range(rnd.randint(0, 9))))
+                    elif u in widths:
+                        w = widths[u] if ty not in ("YM", "DT") or u not in ("YYYY", "YYY", "YY", "Y", "DD") else 9
+                        mode = rnd.random()
+                        if mode < 0.4:
+                            out.append("".join(rnd.choice("0123456789") for _ in range(rnd.randint(1, w))))
+                        elif mode < 0.7:
+                            out.append(rnd.choice(["0", "1", "9" * w, "12", "23", "24", "31", "59", "60", "99", "366", "9999", "100000000",
+                                                   "178000000", "177999999", "99999999"])[:w + 1])
+                        else:
+                            out.append(rnd.choice(["-", "+", ""]) + "".join(rnd.choice("0123456789") for _ in range(w)))
+                    elif u in ("MONTH", "MON"):
+                        out.append(rnd.choice(["Jan", "february", "DEC", "Foo", "may"]))
+                    elif u in ("DAY", "DY"):
+                        out.append(rnd.choice(["Mon", "sunday", "SAT", "Thursday", "xx"]))
+                    elif u in ("AM", "PM", "A.M.", "P.M."):
+                        out.append(rnd.choice(["AM", "pm", "A.M.", "p.m.", ""]))
+                    else:
+                        out.append(tk)
+                text = "".join(out)
+                clk = rnd.choice(CLOCKS + [[9999, 12, 31, 23, 59, 59, 999999], [9990, 1, 1, 0, 0, 0, 0]])
+                fuzz.append((ty + ".parse_at", [clk, list(text), list(pic)]))
+    for ty in FIXED_PICS:
+        for x in {"D": P.dates, "T": P.times, "TS": P.ts, "OD": P.od, "YM": P.ym, "DT": P.dt}[ty][:20]:
+            fuzz.append((ty + ".unbin", [x if ty != "T" else [0, x[0], x[1]]]))
+    eventtrace(v, "parsefuzz", fuzz, {"range"}, shard=4000)
     # chained sessions: values produced by one call flow into the next; TypeOK after every step
     sessions(v, "chain", 14 if v.tier == "quick" else 56, 2500 if v.tier == "quick" else 10000, {"range", "binding"})
 
